@@ -63,6 +63,35 @@ def find_consistency_check(ctx):
     return cands[0]
 
 
+def stored_dtype_keys(ctx):
+    """Keys under which some function stores arrayinfotodtype(<d>) in the descriptor dictionary <d> itself."""
+    keys = set()
+    for fn_ in ctx.repo.all_funcs():
+        for n in own_nodes(fn_.node):
+            if isinstance(n, ast.Assign) and len(n.targets) == 1 and isinstance(n.targets[0], ast.Subscript) and \
+                    isinstance(n.targets[0].slice, ast.Constant) and isinstance(n.value, ast.Call) and \
+                    dotted(n.value.func) == 'arrayinfotodtype' and n.value.args and \
+                    norm(n.value.args[0]) == norm(n.targets[0].value):
+                keys.add(n.targets[0].slice.value)
+    return keys
+
+
+def _uses_stored_dtypedescr(ctx, func, expr):
+    keys = stored_dtype_keys(ctx)
+    if not keys:
+        return False
+    seen, work = set(), [expr]
+    while work:
+        e = work.pop()
+        for x in ast.walk(e):
+            if isinstance(x, ast.Subscript) and isinstance(x.slice, ast.Constant) and x.slice.value in keys:
+                return True
+            if isinstance(x, ast.Name) and x.id not in seen:
+                seen.add(x.id)
+                work.extend(v for v, _ in defs_of(func.node, x.id))
+    return False
+
+
 def size_check_obligations(ctx, clause_prefix='D1'):
     """C17 D1 / C18 D3: the open-time size check is strict, computed from the
     validated descriptor, unavoidable inside the check function and called by
@@ -114,7 +143,7 @@ def size_check_obligations(ctx, clause_prefix='D1'):
             'itemsize': any(n.endswith('itemsize') for n in names),
             'descriptor shape': any("['shape']" in norm(v) for nm in names for v, _ in defs_of(chk.node, nm))
             or "['shape']" in norm(st.test),
-            'arrayinfotodtype': 'arrayinfotodtype' in names}
+            'arrayinfotodtype': 'arrayinfotodtype' in names or _uses_stored_dtypedescr(ctx, chk, st.test)}
     missing = [k for k, v in need.items() if not v]
     ctx.decide(not missing, 'R-FLOW', clause_prefix, chk, st, 'expected-size-expression',
                'expected size = product(descriptor shape) x itemsize of the validated descriptor dtype',
@@ -218,7 +247,7 @@ def opener_branch_agreement(ctx, clause):
     names = derived(opener.node, rd) if rd is not None else set()
     # the validated descriptor may carry the derived description itself: <d>['dtypedescr'] = arrayinfotodtype(<d>)
     from ..pathcond import inline as _inl
-    stored = [n for fn_ in opener.cls.all_funcs() for n in own_nodes(fn_.node)
+    stored = [n for fn_ in ctx.repo.all_funcs() for n in own_nodes(fn_.node)
               if isinstance(n, ast.Assign) and len(n.targets) == 1 and isinstance(n.targets[0], ast.Subscript) and
               isinstance(n.targets[0].slice, ast.Constant) and isinstance(n.value, ast.Call) and
               dotted(n.value.func) == 'arrayinfotodtype' and n.value.args and
